@@ -203,9 +203,16 @@ CLSWith(c, S) ==    \* the listing of the snapshot objects has returned S
          ls == IF hits = {} THEN -1 ELSE nodes[CHOOSE i \in hits : \A j \in hits : i <= j]
          back == IF ls = -1 THEN <<>> ELSE WalkSeq(L, ls, MaxVer + 1)
          oldback == SelectSeq(back, LAMBDA v : v \in cl[c].oldL)
+         \* the snapshots to delete: those of versions before ls on the chain and of the orphans
+         \* just deleted; a snapshot of a version this cleanup does not know may be NEWER than
+         \* ls (added after latest was read) and stays.  Dev "SNAPALL": every other snapshot
+         \* (the pinned rule: two overlapping cleanups can delete each other's retained one)
+         anc == IF l = NoLatest THEN {} ELSE {e[1] : e \in Walk(L, l)}
+         dead == IF l = NoLatest THEN {} ELSE {e[2] : e \in Orphans(L, l)}
+         redundant == IF "SNAPALL" \in Dev THEN S \ {ls} ELSE (S \cap (anc \cup dead)) \ {ls}
      IN IF ls = -1
         THEN Set(c, NoList([cl[c] EXCEPT !.pc = "avU", !.req = Req("list", <<"s", 0, 0>>)]))
-        ELSE Set(c, NoList(CLFin([cl[c] EXCEPT !.pc = "clX", !.S = S, !.sdel = S \ {ls},
+        ELSE Set(c, NoList(CLFin([cl[c] EXCEPT !.pc = "clX", !.S = S, !.sdel = redundant,
                                      !.odel = oldback, !.req = Req("list", <<"s", 0, 0>>)])))
   /\ UNCHANGED <<latest, vers, pay, old, snaps, spay, nextId, base, acked, bad>>
 
